@@ -573,6 +573,29 @@ def p9(repo, res):
                             getattr(node, "lineno", None)))
 
 
+def recipes_p9b(repo, res):
+    """P9b row recipes: for every case of lenpath.py, how each row of the resulting position / orientation paths is computed from the
+    rows of the inputs (`position[1] = rot(i[0], c[1] - p[1]) + p[1]`).  The recipes of the current tree are compared with those recorded
+    from the reference tree (sa/lenpath_golden.json): the lengths may all agree while a row is taken from another index (anchor from the tail
+    of the parent path, subtraction before padding instead of after).  Independent of the code shape: only the evaluated recipe counts."""
+    import json
+    import lenpath
+    rec, und = lenpath.all_recipes(repo)
+    gold = json.load(open(lenpath.GOLDEN))
+    mine = [k for k in gold if k.startswith(('move|', 'rotate|'))]
+    if und:
+        res.undecided.append("P9b: row recipes not evaluated (" + "; ".join(und)[:160] + ")")
+        return
+    diff = [k for k in mine if k in rec and rec[k] != gold[k]]
+    res.evaluations += len(mine)
+    res.ob("P9b:row recipes equal the reference", not diff, {"rule": "P9b", "cases_compared": sum(1 for k in mine if k in rec), "cases_that_differ": len(diff)})
+    if diff:
+        k = diff[0]
+        line = next((a + "   [reference: " + b + "]") for a, b in zip(rec[k], gold[k]) if a != b)
+        res.add(Finding("P9b", "magpylib/_src/obj_classes", "path plumbing", "row recipe: " + k.split("|", 1)[0],
+                        f"{len(diff)} of {len(mine)} cases compute a row of the resulting path from other input rows than the reference tree, e.g. {k.split('|', 1)[1]}: {line[:400]}"))
+
+
 def run(repo, res, tier):
     res.rules = ["P1 composition/anchoring (FRAME)", "P2 rotate_from_* delegation", "P3 reject-before-mutate", "P4 paired pose writes / who-may-write", "P5 in-place pose writes", "P6 one padding computation", "P6b constructor pads for both length orderings",
                  "P7 None is the single identity rotation", "P8 no read-only view becomes a pose path", "P9 LEN-PATH: path lengths consistent for every case of lengths / start / anchor"]
@@ -585,6 +608,7 @@ def run(repo, res, tier):
     p6b(repo, res)
     p7(repo, res)
     p9(repo, res)
+    recipes_p9b(repo, res)
     import rules_roview
     rules_roview.run(repo, res, 'P8')
     import origin_rules
